@@ -27,8 +27,8 @@ PROPS = {
     'C01': dict(
         level='model_checking', verus_units=['merge', 'core', 'utils', 'tasks'],
         kani=True,
-        kani_select=dict(quick=r'^k_order_|^k_src_|^k_dep_heap|^k_task_map_fil_col_n|^k_glue_map_fil_col_n2c1|^k_api_par2_(empty|fil|fmap|map_fil)_collect_vec|^k_api_seq_(empty|fil)_collect_vec' + COMP,
-                         thorough=r'^k_order_|^k_src_|^k_dep_heap|^k_dep_bag|^k_task_\w+_col_n|^k_taskkeys_|^k_glue_\w+_col_n|^k_api_(par2|seq)_\w+_collect(_vec)?_n' + COMP),
+        kani_select=dict(quick=r'^k_order_|^k_src_|^k_merge_|^k_dep_heap|^k_task_map_fil_col_n|^k_glue_map_fil_col_n2c1|^k_api_par2_(empty|fil|fmap|map_fil)_collect_vec|^k_api_seq_(empty|fil)_collect_vec' + COMP,
+                         thorough=r'^k_order_|^k_src_|^k_merge_|^k_dep_heap|^k_dep_bag|^k_task_\w+_col_n|^k_taskkeys_|^k_glue_\w+_col_n|^k_api_(par2|seq)_\w+_collect(_vec)?_n' + COMP),
         trusted_base=[T1, T2, T3, T4, T5, ASPEC, A64, ARITH, RSCHED, STUBS, MODEL],
         assumptions=[TASK_BOUND],
         explanation='Verus (unbounded, real text): heap_sort_into_vec/_pinned_vec append exactly the key-sorted enumeration of all (key,value) slots after the untouched prefix (every slot read once), for any number and length of worker vectors; Runner::run_map returns one result per worker in spawn order for every has_more() history. Verus (unbounded, real text, RW15/RW16): filtermap_fil_col::task and flatmap_fil_col::task return keys that are strictly increasing and are positions pulled by this worker (T1 assumed at the two pull sites), every value is a filter_map output that has a value and passes the filter; Fallible for Option never panics under has_value(). Kani (bounded): every collect kernel task returns exactly the survivors of the blocks delivered to it keyed by source position in strictly increasing key order (= the merge precondition, asserted by the merge contract stub); kernel glue and public API chains equal the std::iter chain. ' + MC_TEXT,
@@ -45,7 +45,7 @@ PROPS = {
     'C03': dict(
         level='model_checking', verus_units=['utils', 'core', 'redtasks', 'dispatch', 'merge'],
         kani=True,
-        kani_select=dict(quick=r'^k_task_\w+_red_n(3c1|1c1|2c1)|^k_task_\w+_red_n3c2_m11|^k_glue_map_fil_red_n3c1|^k_api_par2_(map_fil_reduce|fil_fold|map_min_by_key|map_fil_sum)|^k_api_seq_(map_fil_reduce|fil_fold|map_min_by_key|map_max_by_key|fil_max_by|map_fil_sum|fmap_fil_max|flat_reduce)' + COMP,
+        kani_select=dict(quick=r'^k_task_\w+_red_n(3c1|1c1|2c1)|^k_task_\w+_red_n3c2_m11|^k_glue_map_fil_red_n3c1|^k_api_par2_(map_fil_reduce|fil_fold|map_min_by_key|map_fil_sum)|^k_api_seq_(map_fil_reduce|fil_fold|map_min_by_key|map_max_by_key|fil_max_by|fil_min_by|map_min|map_fil_sum|fmap_fil_max|flat_reduce)' + COMP,
                          thorough=r'^k_task_\w+_red_|^k_glue_\w+_red_|^k_api_(par2|seq)_\w+_(reduce|fold|sum|min|max|min_by|max_by|min_by_key|max_by_key)_n' + COMP),
         trusted_base=[T1, T5, T6, A64, ARITH, RSCHED, STUBS, MODEL],
         assumptions=[TASK_BOUND, 'operators checked: wrapping add, xor, min, max on u8 payloads (associative and commutative)'],
@@ -72,14 +72,14 @@ PROPS = {
     'C06': dict(
         level='model_checking', verus_units=['merge', 'tasks', 'into'],
         kani=True,
-        kani_select=dict(quick=r'^k_dep_bag|^k_dep_heap|^k_glue_map_fil_col_n2c1|^k_api_(par2|seq|par2u|sequ)_(map|map_fil)_into_vec',
-                         thorough=r'^k_glue_\w+_col_n|^k_api_\w+_into_'),
+        kani_select=dict(quick=r'^k_merge_|^k_dep_bag|^k_dep_heap|^k_glue_map_fil_col_n2c1|^k_api_(par2|seq|par2u|sequ)_(map|map_fil)_into_vec',
+                         thorough=r'^k_merge_|^k_glue_\w+_col_n|^k_api_\w+_into_'),
         trusted_base=[T1, T2, T3, T4, T5, ASPEC, A64, RSCHED, STUBS, MODEL],
         assumptions=[TASK_BOUND, 'targets hold one pre-existing symbolic element'],
         explanation='Verus (unbounded): the merge appends after the untouched prefix old(output); the chunked arm of map_col::task writes only at positions >= the number of pre-existing elements (offset + chunk.begin_idx); Vec::map_into and SplitVec::map_into reserve (concurrent) capacity for existing + new elements before the target becomes an ordered bag (T2 precondition of map_col) and hand back the existing contents as a prefix, for every existing length and every source length. Kani (bounded): collect_into for Vec / SplitVec / FixedVec targets with symbolic pre-existing contents, map-only (ordered bag) and filtering (merge) pipelines, known and unknown source length, parallel and num_threads(1): result == existing ++ std chain. ' + MC_TEXT,
     ),
     'C07': dict(
-        level='model_checking', verus_units=['core', 'redtasks'],
+        level='model_checking', verus_units=['core', 'redtasks', 'colx', 'merge'],
         kani=True,
         kani_select=dict(quick=r'^k_task_(map_fil|filtermap_fil)_col_x_n3|^k_glue_map_fil_col_x_n2c1|^k_api_par2_(map|fil)_collect_x|^k_api_seq_empty_collect_n' + COMP,
                          thorough=r'^k_task_\w+_col_x_|^k_glue_\w+_col_x_|^k_api_\w+_collect_x_n|^k_api_seq_\w+_collect_n' + COMP),
@@ -88,7 +88,7 @@ PROPS = {
         explanation='Verus (unbounded): Runner::run_map keeps exactly one vector per worker; in the three collect_x kernel tasks the worker vector keeps what it collected and its length is the sum of the survivors of the chunks it pulled (RW25/RW26). Kani (bounded): each collect_x kernel task returns the multiset of survivors of its blocks; glue with the real SplitVec::append and collect_x through the API are multiset-equal to the std chain. ' + MC_TEXT,
     ),
     'C08': dict(
-        level='proof', verus_units=['core', 'dispatch', 'into'],
+        level='proof', verus_units=['core', 'dispatch', 'into', 'colx'],
         kani=True,
         kani_select=dict(quick=r'^k_pair_|^k_lazy_|^k_order_|^k_api_seq_(empty_collect_vec|fil_collect_vec|map_fil_count|map_fil_reduce|map_fil_find|fil_first|map_any|fil_for_each|empty_count)',
                          thorough=r'^k_pair_|^k_lazy_|^k_order_|^k_api_seq_'),
@@ -97,7 +97,7 @@ PROPS = {
         explanation='Verus (unbounded): calc_num_threads(len, Max(n)) <= n; Runner::new gives 1 <= max_num_threads <= n; every run/run_map/reduce spawns between 1 and max_num_threads workers for every sequence of has_more() answers; is_sequential() <=> Max(1); the nine kernel entry points of src/core and the six filtering collect_into methods of Vec / SplitVec enter the parallel kernel (the only code that reaches the Runner) only when !is_sequential() (units dispatch, into). Kani: with num_threads(1) and a fully symbolic chunk_size no terminal reaches the Runner (its three entry points are replaced by assert!(false)) and nothing is pulled through the concurrent interface.',
     ),
     'C09': dict(
-        level='model_checking', verus_units=['core', 'dispatch', 'into'],
+        level='model_checking', verus_units=['core', 'dispatch', 'into', 'colx'],
         kani=True,
         kani_select=dict(quick=r'^k_lazy_|^k_order_|^k_api_seq_', thorough=r'^k_lazy_|^k_order_|^k_api_seq_'),
         trusted_base=[T7, STUBS, MODEL],
@@ -105,21 +105,22 @@ PROPS = {
         explanation='Verus (unbounded): is_sequential() <=> num_threads == Max(1); 15 dispatch functions take the sequential (plain iterator) path exactly when is_sequential(). Kani (bounded in data, complete in parameters): for every terminal and iterator type with num_threads(1) the value equals the std chain and the SEQUENCE of (stage, position) closure calls is identical to the std chain (so reduce/fold are left-to-right); nothing reaches the Runner. ' + MC_TEXT,
     ),
     'C10': dict(
-        level='other', verus_units=['core'],
+        level='other', verus_units=['core', 'dispatch'],
         kani=True,
         kani_select=dict(quick=r'^k_dep_|^k_task_\w+_find_n(3c1|3c2|2c1)|^k_glue_map_fil_find_|^k_api_seq_(map_fil_find|fil_first|map_any)',
                          thorough=r'^k_dep_|^k_task_\w+_find_|^k_glue_\w+_find_|^k_api_seq_\w+_(find|first|any|all)_'),
         trusted_base=[T1, T5, AHW, A64, RSCHED, STUBS, MODEL],
         assumptions=[TASK_BOUND, 'liveness under fairness (termination of the workers on an endless source) is not expressible as a contract; decided instead: the safety decomposition below, which implies the property together with T1 (after skip_to_end every pull returns None)'],
-        explanation='Safety decomposition of a liveness property. Verus (unbounded): the spawn loops terminate (decreases) after at most max_num_threads spawns, and do_spawn / next_chunk_size refuse as soon as has_more() is No. Kani (bounded): a worker that finds a match has called skip_to_end and performs no further pull, elements of its later chunks are never evaluated, a worker that sees None returns (constant = 1 chunk per worker); in sequential mode the call sequence stops at the first match (equals std find).',
+        explanation='Safety decomposition of a liveness property. Verus (unbounded): the spawn loops terminate (decreases) after at most max_num_threads spawns, and do_spawn / next_chunk_size refuse as soon as has_more() is No. Kani (bounded): a worker that finds a match has called skip_to_end and performs no further pull, elements of its later chunks are never evaluated, a worker that sees None returns (constant = 1 chunk per worker); in sequential mode the call sequence stops at the first match (equals std find). Verus (unbounded, unit dispatch): the three find dispatchers enter the parallel kernel only when not sequential and return the kernel result of the mode.',
     ),
     'C11': dict(
-        level='proof', verus_units=['core'],
+        level='proof', verus_units=['core', 'redtasks', 'tasks'],
         kani=True,
-        kani_select=dict(quick=r'^k_pair_|^k_task_\w+_n3c2_m01|^k_glue_(map_fil|filtermap_fil)_(cnt|find)_n3c2', thorough=r'^k_pair_|^k_task_\w+c[234]_|^k_glue_\w+c[234]_'),
+        kani_timeout='20m',
+        kani_select=dict(quick=r'^k_pair_|^k_task_\w+_n3c2_m01|^k_task_flatmap_fil_(cnt|find|red)_n1c2_m1|^k_glue_(map_fil|filtermap_fil)_(cnt|find)_n3c2', thorough=r'^k_pair_|^k_task_\w+c[234]_|^k_glue_\w+c[234]_'),
         trusted_base=[T1, T5, AHW, A64, ARITH, STUBS, MODEL],
         assumptions=['T1: a pull of size c takes c consecutive elements, fewer only at the end of the source', TASK_BOUND + ' (only for "each kernel forwards its chunk size unchanged to every pull")'],
-        explanation='Verus (unbounded): calc_chunk_size maps Exact(x) to Exact(x); next_chunk_size* returns Some(x) under Exact(x); the spawn log of run/run_map/reduce is constantly x for every has_more() history and every thread count. Kani (bounded): every pull a kernel task makes requests exactly the chunk size the worker was started with.',
+        explanation='Verus (unbounded): calc_chunk_size maps Exact(x) to Exact(x); next_chunk_size* returns Some(x) under Exact(x); the spawn log of run/run_map/reduce is constantly x for every has_more() history and every thread count. Verus (unbounded, units tasks and redtasks): in the 13 kernel task functions under contract (4 ordered collect, 3 reduce, 3 count, 3 collect_x) every pull requests exactly the chunk size handed to the worker -- the element-wise pulls only when it is 1 (precondition `handed()` on every pull method of the iterator stand-in). Kani (bounded): the same for the find tasks and, on small shapes, for all task functions (pull log of the model iterator), including the chunked arm of the flat_map tasks on a one-element input.',
     ),
     'C12': dict(
         level='proof', verus_units=['core'],
@@ -138,7 +139,7 @@ PROPS = {
         explanation='Verus (unbounded, real text): the merge reads every (vector, index) slot exactly once (ghost ledger `reads` is a bijection onto all slots) and pushes exactly that value to the output, so each value is owned exactly once by the output; Runner::run_map hands back every worker vector exactly once. Kani (bounded): a drop-counting item type through filter+collect (merge path), map+collect (ordered bag path) and find with early exit over the real ConIterOfVec: after the result is dropped every item has been dropped exactly once, none twice before.',
     ),
     'C15': dict(
-        level='proof', verus_units=['core', 'into', 'dispatch'],
+        level='proof', verus_units=['core', 'into', 'dispatch', 'colx'],
         kani=True,
         kani_select=dict(quick=r'^k_pair_|^k_dep_huge|^k_glue_map_fil_(cnt|find)_n3c1|^k_glue_filtermap_fil_find_n3c1|^k_glue_map_fil_red_n3c1', thorough=r'^k_pair_|^k_dep_huge|^k_glue_'),
         trusted_base=[T1, T5, AHW, A64, ASPEC, ARITH, STUBS, MODEL],
